@@ -154,3 +154,58 @@ Example C10_any_sat :
   snd (replay_file (firstn (N.to_nat 23) (encode_log [ex_small; ex_small]))) = Clean /\
   status_clean (snd (replay_file (firstn (N.to_nat 30) (encode_log [ex_small; ex_small])))) = false.
 Proof. vm_compute. split; reflexivity. Qed.
+
+(* ---------- cycles of damage, recovery and writes ---------- *)
+(* one cycle: the newest file is replaced by ANY bytes [dmg f] (the fault), the database is
+   opened (recovery delivers [replay_dir] of the damaged directory) and the entries [es'] are
+   written *)
+Definition damage_newest (dmg : bytes -> bytes) (files : list bytes) : list bytes :=
+  match rev files with
+  | [] => []
+  | f :: r => rev r ++ [dmg f]
+  end.
+
+Definition cycle (files : list bytes) (c : (bytes -> bytes) * list wentry) : list bytes :=
+  reuse_append (damage_newest (fst c) files) (encode_log (snd c)).
+
+Lemma damage_newest_snoc : forall dmg pre f, damage_newest dmg (pre ++ [f]) = pre ++ [dmg f].
+Proof. intros dmg pre f. unfold damage_newest. rewrite rev_unit, rev_involutive. reflexivity. Qed.
+
+Lemma cycle_nonempty : forall files c, cycle files c <> [].
+Proof.
+  intros files c. unfold cycle, reuse_append.
+  destruct (rev (damage_newest (fst c) files)) as [|f r]; [discriminate|].
+  destruct (status_clean _); intro H; apply (f_equal (@length _)) in H;
+    rewrite app_length in H; cbn [length] in H; lia.
+Qed.
+
+(* every cycle: the next recovery delivers what this recovery delivered and then this cycle's
+   writes, whatever the fault did to the newest file; the older files are untouched *)
+Theorem C10_cycle_ok : forall files dmg es',
+  files <> [] -> forallb wf_entry es' = true ->
+  replay_dir (cycle files (dmg, es')) =
+    replay_dir (damage_newest dmg files) ++ map canon es' /\
+  firstn (length files - 1) (cycle files (dmg, es')) = firstn (length files - 1) files.
+Proof.
+  intros files dmg es' Hne Hes'.
+  destruct (exists_last Hne) as [pre [f ->]].
+  unfold cycle. cbn [fst snd]. rewrite damage_newest_snoc.
+  destruct (C10_any_damage_then_writes pre (dmg f) es' Hes') as [H1 [H2 _]].
+  split; [exact H1|].
+  rewrite app_length. cbn [length]. replace (length pre + 1 - 1)%nat with (length pre) by lia.
+  rewrite H2, firstn_len_app. reflexivity.
+Qed.
+
+(* any number of cycles: the writes of the last cycle are always delivered, behind what the
+   last recovery delivered *)
+Theorem C10_cycles_ok : forall cs files dmg es',
+  files <> [] -> forallb wf_entry es' = true ->
+  let files' := fold_left cycle cs files in
+  replay_dir (cycle files' (dmg, es')) =
+    replay_dir (damage_newest dmg files') ++ map canon es'.
+Proof.
+  intros cs files dmg es' Hne Hes'. cbn zeta.
+  apply C10_cycle_ok; [|exact Hes'].
+  revert files Hne. induction cs as [|c cs IH]; intros files Hne; cbn [fold_left]; [exact Hne|].
+  apply IH. apply cycle_nonempty.
+Qed.
